@@ -14,7 +14,7 @@ impl Prop for C17 {
         "C17"
     }
     fn rule(&self) -> String {
-        "cases = 1-3 prepared statements with 1-6 parameters and a history of 1-12 rounds; a round sends 0-5 (one round in ten: 20-120, interleaved over the targets) COM_STMT_SEND_LONG_DATA chunks (sizes 0, 1, 300, 70000, random; one >= 2^24-byte chunk in the enumerated cases) addressed to generated (statement, parameter) targets, possibly for several statements at once, (occasionally followed by a re-prepare that hands out the same id and parameter count again, which must discard what is pending), then executes one statement whose long-data parameters are omitted inline (as clients do) while the others are sent inline incl. NULLs. One enumerated history executes a single statement more than 65536 (thorough: 131072) times - a streamed value first, inline values afterwards - so that 'delivered to exactly one execution' is also checked at distances where narrow counters wrap; another streams one parameter in more than 65536 (thorough: 200000) one-byte and empty chunks. Oracle: reference model pending[stmt][param]; at an execution the addressed parameters arrive as bytes equal to the in-order concatenation, the others exactly as encoded; afterwards the statement's pending data is empty (the next execution sees its inline value); other statements' pending data is untouched. Non-trivial = >= 2 chunks for one target, or long data pending for another statement across an execution, or an execution without long data after one with.".into()
+        "cases = 1-3 prepared statements with 1-6 parameters and a history of 1-12 rounds; a round sends 0-5 (one round in ten: 20-120, interleaved over the targets) COM_STMT_SEND_LONG_DATA chunks (sizes 0, 1, 300, 70000, random; one >= 2^24-byte chunk in the enumerated cases) addressed to generated (statement, parameter) targets, possibly for several statements at once, (occasionally followed by a re-prepare that hands out the same id and parameter count again, which must discard what is pending), then executes one statement whose long-data parameters are omitted inline (as clients do) while the others are sent inline incl. NULLs. One enumerated history executes a single statement more than 65536 (thorough: 131072) times - a streamed value first, inline values afterwards - so that 'delivered to exactly one execution' is also checked at distances where narrow counters wrap; another streams one parameter in more than 65536 (thorough: 200000) one-byte and empty chunks. One execution in five is answered with an error (deadlock, lock wait timeout, unknown statement handler, ...): its long data was delivered to it and must not show up again. Oracle: reference model pending[stmt][param]; at an execution the addressed parameters arrive as bytes equal to the in-order concatenation, the others exactly as encoded; afterwards the statement's pending data is empty (the next execution sees its inline value); other statements' pending data is untouched. Non-trivial = >= 2 chunks for one target, or long data pending for another statement across an execution, or an execution without long data after one with.".into()
     }
     fn assumptions(&self) -> Vec<String> {
         vec!["long data is only addressed to non-NULL parameters of string type, as client libraries do".into()]
@@ -89,7 +89,8 @@ impl Prop for C17 {
             for x in pending[s].iter_mut() {
                 *x = false;
             }
-            ops.push(Op::Exec { stmt: s, params, rebind: true, take: None });
+            let reply_err = if g.chance(1, 5) { Some(*g.pick(&[1213u16, 1205, 1243, 1064, 1105, 1317, 1062])) } else { None };
+            ops.push(Op::Exec { stmt: s, params, rebind: true, take: None, reply_err });
         }
         Case { stmts, ops, tail_unbound: None }
     }
@@ -113,13 +114,15 @@ impl Prop for C17 {
                         params: vec![Param { coltype: T_LONG, unsigned: false, value: PVal::Int(0x01020304) }, Param { coltype: T_BLOB, unsigned: false, value: PVal::LongData }],
                         rebind: true,
                         take: None,
+                        reply_err: None,
                     },
-                    Op::Exec { stmt: 1, params: vec![Param { coltype: T_BLOB, unsigned: false, value: PVal::LongData }], rebind: true, take: None },
+                    Op::Exec { stmt: 1, params: vec![Param { coltype: T_BLOB, unsigned: false, value: PVal::LongData }], rebind: true, take: None, reply_err: None },
                     Op::Exec {
                         stmt: 0,
                         params: vec![Param { coltype: T_LONG, unsigned: false, value: PVal::Int(5) }, Param { coltype: T_BLOB, unsigned: false, value: PVal::Bytes(b"inline".to_vec()) }],
                         rebind: true,
                         take: None,
+                        reply_err: None,
                     },
                 ],
                 tail_unbound: None,
@@ -134,7 +137,7 @@ impl Prop for C17 {
         let mut ops = vec![
             Op::Long { stmt: 0, param: 0, data: b"streamed-".to_vec() },
             Op::Long { stmt: 0, param: 0, data: b"blob".to_vec() },
-            Op::Exec { stmt: 0, params: vec![Param { coltype: T_BLOB, unsigned: false, value: PVal::LongData }, Param { coltype: T_LONG, unsigned: false, value: PVal::Int(1) }], rebind: true, take: None },
+            Op::Exec { stmt: 0, params: vec![Param { coltype: T_BLOB, unsigned: false, value: PVal::LongData }, Param { coltype: T_LONG, unsigned: false, value: PVal::Int(1) }], rebind: true, take: None, reply_err: None },
         ];
         for k in 0..many {
             ops.push(Op::Exec {
@@ -142,6 +145,7 @@ impl Prop for C17 {
                 params: vec![Param { coltype: T_BLOB, unsigned: false, value: PVal::Bytes(format!("inline-{}", k).into_bytes()) }, Param { coltype: T_LONG, unsigned: false, value: PVal::Int(k as u64 & 0xffff_ffff) }],
                 rebind: k % 251 == 0,
                 take: None,
+                reply_err: None,
             });
         }
         v.push(Case { stmts: vec![(3, 2)], ops, tail_unbound: None });
@@ -151,8 +155,8 @@ impl Prop for C17 {
             Tier::Thorough => 200_000,
         };
         let mut ops: Vec<Op> = (0..nch).map(|k| Op::Long { stmt: 0, param: 1, data: if k % 97 == 5 { vec![] } else { vec![b'a' + (k % 26) as u8] } }).collect();
-        ops.push(Op::Exec { stmt: 0, params: vec![Param { coltype: T_LONG, unsigned: false, value: PVal::Int(9) }, Param { coltype: T_BLOB, unsigned: false, value: PVal::LongData }], rebind: true, take: None });
-        ops.push(Op::Exec { stmt: 0, params: vec![Param { coltype: T_LONG, unsigned: false, value: PVal::Int(10) }, Param { coltype: T_BLOB, unsigned: false, value: PVal::Bytes(b"inline".to_vec()) }], rebind: true, take: None });
+        ops.push(Op::Exec { stmt: 0, params: vec![Param { coltype: T_LONG, unsigned: false, value: PVal::Int(9) }, Param { coltype: T_BLOB, unsigned: false, value: PVal::LongData }], rebind: true, take: None, reply_err: None });
+        ops.push(Op::Exec { stmt: 0, params: vec![Param { coltype: T_LONG, unsigned: false, value: PVal::Int(10) }, Param { coltype: T_BLOB, unsigned: false, value: PVal::Bytes(b"inline".to_vec()) }], rebind: true, take: None, reply_err: None });
         v.push(Case { stmts: vec![(4, 2)], ops, tail_unbound: None });
         v
     }
